@@ -60,6 +60,15 @@ def step (_ : Unit) (line : String) : Unit × String :=
             ((), s!"err={showErr e} trace={showTrace r.trace} ver={db.version} data={showData db.data} toapply={joinWith "," ((versionsToApply c vs).map (toString ·.number))} latest={latest vs}")
       | _, _ => ((), "bad-op")
     | _, _, _, _, _ => ((), "bad-op")
+  | "up2" :: rest =>
+    -- two upgrades in one process with the same declared table: each behaves as if alone (the model is a function
+    -- of the declared table, so sharing cannot matter)
+    match (kv rest "cur1").bind String.toNat?, (kv rest "cur2").bind String.toNat?, (kv rest "vs").bind parseVs with
+    | some c1, some c2, some vs =>
+      let r1 := upgrade (some c1) vs (fun _ => false) false
+      let r2 := upgrade (some c2) vs (fun _ => false) false
+      ((), s!"err1={showErr r1.err} t1={showTrace r1.trace} err2={showErr r2.err} t2={showTrace r2.trace}")
+    | _, _, _ => ((), "bad-op")
   | "wopen" :: rest =>
     -- wallet.Open: tx manager (versions 1..txlatest, only the last carries a data-changing migration here) and
     -- address manager (versions ..addrlatest) upgraded in ONE transaction.
